@@ -422,10 +422,11 @@ func (b *tableCompactionBuilder) flush() error {
 
 func (b *tableCompactionBuilder) cleanup() error {
 	if b.tw != nil {
-		if err := b.tw.drop(); err != nil {
-			return err
-		}
+		// Never keep the writer for the next attempt: once finish has run its
+		// table writer is closed and its buffers are back in the pool.
+		err := b.tw.drop()
 		b.tw = nil
+		return err
 	}
 	return nil
 }
